@@ -1342,6 +1342,22 @@ func (w *World) checkStepExpect(r *Report, g *Grammar) {
 	default:
 		r.ok("G-EXPECT", "unbound-prefix", pos, "a prefix missing from the namespace map panics (=> Compile error); a bound one gets its URI")
 	}
+	// the same when the token after the name test is itself a name (an operator
+	// name such as `and`): the prefix looked up is the one of the name test, not
+	// whatever the scanner holds after it has moved on
+	andTok := tokSpec{Tok: t.name, Name: "and", Prefix: ""}
+	pb2, cb2, bb2 := judge([]tokSpec{{Tok: t.name, Name: "x", Prefix: "p"}, andTok}, tab, true)
+	pu2, cu2, _ := judge([]tokSpec{{Tok: t.name, Name: "x", Prefix: "q"}, andTok}, tab, true)
+	switch {
+	case pb2+cb2 == 0 || pu2+cu2 == 0:
+		r.undec("G-EXPECT", "prefix-of-this-token", pos, "prefixed name tests followed by a name token could not be followed")
+	case cu2 > 0:
+		r.bad("G-EXPECT", "prefix-of-this-token", pos, "an unbound prefix is accepted when the name test is followed by a name token (`q:x and ...`): the prefix is looked up after the scanner has moved on to the next token")
+	case pb2 > 0 || bb2 != cb2:
+		r.bad("G-EXPECT", "prefix-of-this-token", pos, "a bound prefix does not get its URI when the name test is followed by a name token (`p:x and ...`): the prefix is read after the scanner has moved on to the next token")
+	default:
+		r.ok("G-EXPECT", "prefix-of-this-token", pos, "the prefix resolved is the one of the name test itself, whatever token follows")
+	}
 	pn, cn, bn := judge([]tokSpec{{Tok: t.name, Name: "x", Prefix: "q"}}, nil, false)
 	pe, ce, be := judge([]tokSpec{{Tok: t.name, Name: "x", Prefix: ""}}, tab, true)
 	if pn == 0 && cn > 0 && bn == 0 && pe == 0 && ce > 0 && be == 0 {
